@@ -431,9 +431,22 @@ def fam_docs(ctx, k):
     if m.t.shape[1] > ctx.scale(1500, 6000):
         ctx.drop("docs-mesh-too-large")
         return
-    st = St(m, kind, G.order_of(m))
+    # gmsh files carry metadata entries such as 'gmsh:bounding_entities' next to the tags: only genuine
+    # index arrays are tags
+    from ..c18_geom import index_problems, own_validity
+    subs = {n: v for n, v in (m.subdomains or {}).items() if index_problems(v, m.t.shape[1]) is None and len(v)}
+    bnds = {n: v for n, v in (m.boundaries or {}).items()
+            if index_problems(v, m.facets.shape[1]) is None and len(v)}
+    order = G.order_of(m)
+    if order == 1 and np.unique(m.t).size != m.p.shape[1]:
+        ctx.reached("docs-mesh-with-unused-nodes")
+        m = attach_tags(m, subs, bnds).remove_unused_nodes()     # judged in family `cleanup`
+    st = St(attach_tags(m, subs, bnds), kind, order)
+    if own_validity(st, need_measure=False):
+        ctx.drop("docs-mesh-not-a-valid-input")
+        return
+    m = st.mesh
     ctx.reached("docs-mesh-loaded")
-    subs = dict(m.subdomains or {})
     if st.order == 1:
         for name in sorted(subs)[:2]:
             if 0 < len(subs[name]) < st.nt:
